@@ -705,12 +705,17 @@ func mkEq(a, b *Term) *Term {
 		if a.hi < b.lo || b.hi < a.lo {
 			return ts.False
 		}
-		// push equality with a constant through ite
+		// push equality with a constant through a small ite tree with constant leaves
+		// (never through arbitrary shared ite DAGs: that expands them into trees)
 		if b.isConst() && a.op == OIte {
-			return mkIte(a.a[0], mkEq(a.a[1], b), mkEq(a.a[2], b))
+			if _, ok := iteLeaves(a); ok {
+				return mkIte(a.a[0], mkEq(a.a[1], b), mkEq(a.a[2], b))
+			}
 		}
 		if a.isConst() && b.op == OIte {
-			return mkIte(b.a[0], mkEq(a, b.a[1]), mkEq(a, b.a[2]))
+			if _, ok := iteLeaves(b); ok {
+				return mkIte(b.a[0], mkEq(a, b.a[1]), mkEq(a, b.a[2]))
+			}
 		}
 	}
 	if a.id > b.id {
